@@ -75,22 +75,34 @@ structure LHState (α : Type) where
   b1 : List Nat
   pivot : Nat
   numIter : Nat
+  /-- diagnostic, not a variable of the code: number of ratio tests so far that reported
+      `found = False` (the code ignores the flag and pivots on `argmins[0]` anyway) -/
+  nf : Nat
+  /-- diagnostic: number of ratio tests whose first pass (on the last column) left at least two
+      rows, i.e. that went into the lexicographic tie-breaking loop -/
+  ties : Nat
 
 /-- `_initialize_tableaux`; `bases = (m..m+n-1, 0..m-1)` -/
 def lhInit (m n : Nat) (A B : Nat → Nat → α) (pivot : Nat) : LHState α :=
-  ⟨initT0 m n B, initT1 m n A, (List.range n).map (· + m), List.range m, pivot, 0⟩
+  ⟨initT0 m n B, initT1 m n A, (List.range n).map (· + m), List.range m, pivot, 0, 0, 0⟩
+
+/-- diagnostic: did the first pass of the ratio test leave a tie? -/
+def firstPassTie (T : M α) (pivotc : Nat) (tp td : α) : Nat :=
+  if (minRatioNoTie T pivotc (T.nc - 1) (List.range T.nr) tp td).length ≥ 2 then 1 else 0
 
 /-- one pass of the body of `for pl in pls` (lemke_howson.py 398-407): ratio test, pivoting,
     exchange of the entering and the leaving variable. `slack_starts = (m, 0)`. -/
 def lhStep (m : Nat) (tp td : α) (s : LHState α) (pl : Nat) : LHState α :=
   if pl = 0 then
-    let r := (lexMinRatio s.T0 s.pivot m tp td).2
-    { s with T0 := pivot s.T0 s.pivot r, b0 := s.b0.set r s.pivot, pivot := s.b0.getD r 0,
-             numIter := s.numIter + 1 }
+    let fr := lexMinRatio s.T0 s.pivot m tp td
+    { s with T0 := pivot s.T0 s.pivot fr.2, b0 := s.b0.set fr.2 s.pivot, pivot := s.b0.getD fr.2 0,
+             numIter := s.numIter + 1, nf := if fr.1 then s.nf else s.nf + 1,
+             ties := s.ties + firstPassTie s.T0 s.pivot tp td }
   else
-    let r := (lexMinRatio s.T1 s.pivot 0 tp td).2
-    { s with T1 := pivot s.T1 s.pivot r, b1 := s.b1.set r s.pivot, pivot := s.b1.getD r 0,
-             numIter := s.numIter + 1 }
+    let fr := lexMinRatio s.T1 s.pivot 0 tp td
+    { s with T1 := pivot s.T1 s.pivot fr.2, b1 := s.b1.set fr.2 s.pivot, pivot := s.b1.getD fr.2 0,
+             numIter := s.numIter + 1, nf := if fr.1 then s.nf else s.nf + 1,
+             ties := s.ties + firstPassTie s.T1 s.pivot tp td }
 
 /-- the `while True` loop (395-416): the players alternate; stop with `converged` when the
     initial label leaves, without when `num_iter >= max_iter`. `fuel = max_iter - 1`
@@ -194,6 +206,17 @@ def indiff (solve : M α → M α → Option (M α)) (P : Nat → Nat → α) (m
     else if (List.range mOwn).any (fun i =>
         !(own.contains i) && decide (z k < sumRange k fun j => P i (opp.getD j 0) * z j)) then none
     else some z
+
+/-- The solver the driver runs in place of LAPACK `gesv`: exact Gauss-Jordan
+    (`MatAlg.solve`) followed by a residual check `S Z = b` of the first column. In exact
+    arithmetic the check never fails; it makes the soundness of the solver a one-line fact
+    instead of an assumption. -/
+def solveChecked (S b : M α) : Option (M α) :=
+  match MatAlg.solve S b with
+  | none => none
+  | some Z =>
+    if (List.range S.nr).all (fun i => sumRange S.nc (fun j => S.get i j * Z.get j 0) == b.get i 0)
+    then some Z else none
 
 /-- `out[p][supp] = action[:-1]` on a zero vector, as the function `i ↦ out[p][i]` -/
 def scatter (supp : List Nat) (z : Nat → α) (i : Nat) : α :=
@@ -336,7 +359,8 @@ def showLH (sh : α → String) (m n : Nat) (o : LHOut α) : String :=
   let xy := lhMixedActions m n o.st
   "conv=" ++ showBool o.converged ++ " iter=" ++ toString o.numIter ++ " init=" ++ toString o.init ++
   " b0=" ++ showList toString o.st.b0 ++ " b1=" ++ showList toString o.st.b1 ++
-  " x=" ++ showList sh xy.1 ++ " y=" ++ showList sh xy.2
+  " x=" ++ showList sh xy.1 ++ " y=" ++ showList sh xy.2 ++ " nf=" ++ toString o.st.nf ++
+  " ties=" ++ toString o.st.ties
 
 def showSE (m n : Nat) (l : List ((List Nat × List Nat) × ((Nat → Rat) × (Nat → Rat)))) : String :=
   if l.isEmpty then "-" else
@@ -379,12 +403,25 @@ def handle (toks : List String) : String :=
       if shaped m n A && shaped n m B && m ≥ 1 && n ≥ 1 then
         let fA := fnOfMat A
         let fB := fnOfMat B
-        let ne := supportEnum MatAlg.solve m n fA fB
-        let frag := (supportPairs m n).filter fun p => pairClass MatAlg.solve m n fA fB p.1 p.2 eps = 2
+        let ne := supportEnum solveChecked m n fA fB
+        let frag := (supportPairs m n).filter fun p => pairClass solveChecked m n fA fB p.1 p.2 eps = 2
         "npairs=" ++ toString (supportPairs m n).length ++ " ne=" ++ showSE m n ne ++
         " frag=" ++ showPairs frag
       else "bad-op"
     | _, _, _, _, _ => "bad-op"
+  | "indiff" :: r =>
+    -- one call of `_indiff_mixed_action`: the verdict and the solution of the linear system
+    match kvNat r "mown", kvRatMat r "P", kvNats r "own", kvNats r "opp" with
+    | some mo, some P, some own, some opp =>
+      if P.length == mo && own.length == opp.length && own.length ≥ 1 && own.all (· < mo) then
+        let fP := fnOfMat P
+        match solveChecked (indiffSys fP own opp) (indiffRhs own.length) with
+        | none => "sing"
+        | some Z =>
+          (match indiff solveChecked fP mo own opp with | none => "0" | some _ => "1") ++ " " ++
+          showList showRat ((List.range (own.length + 1)).map fun i => Z.get i 0)
+      else "bad-op"
+    | _, _, _, _ => "bad-op"
   | "ksub" :: r =>
     match kvNat r "n", kvNat r "k" with
     | some n, some k => showMat toString (kSubsets n k)
